@@ -73,6 +73,30 @@ theorem offset_injective (N K c o d c' o' d' : Nat) (ho : o < N) (hd : d < K) (h
   refine ⟨rfl, rfl, ?_⟩
   omega
 
+/-- the offset map is **onto** the buffer: every element `k < C·N·K` of the row-major buffer is the `dim_d` entry of some
+    cell `(c, o)` of the index box — together with `offset_injective`, every element is exported exactly once. -/
+theorem offset_surjective (C N K k : Nat) (hk : k < C * N * K) :
+    ∃ c o d, c < C ∧ o < N ∧ d < K ∧ c * N * K + o * K + d = k := by
+  have hK : 0 < K := by
+    rcases Nat.eq_zero_or_pos K with h | h
+    · subst h; simp at hk
+    · exact h
+  have hN : 0 < N := by
+    rcases Nat.eq_zero_or_pos N with h | h
+    · subst h; simp at hk
+    · exact h
+  refine ⟨k / K / N, k / K % N, k % K, ?_, Nat.mod_lt _ hN, Nat.mod_lt _ hK, ?_⟩
+  · rw [Nat.div_div_eq_div_mul, Nat.div_lt_iff_lt_mul (by positivity)]
+    calc k < C * N * K := hk
+      _ = C * (K * N) := by ring
+  · have e1 : k / K / N * N + k / K % N = k / K := by
+      rw [Nat.mul_comm]; exact Nat.div_add_mod _ _
+    have e2 : k / K * K + k % K = k := by
+      rw [Nat.mul_comm]; exact Nat.div_add_mod _ _
+    calc k / K / N * N * K + k / K % N * K + k % K
+        = (k / K / N * N + k / K % N) * K + k % K := by ring
+      _ = k := by rw [e1, e2]
+
 /-- exactly `C·N` rows (also for zero-sized axes). -/
 theorem rows_count (C N K : Nat) (flat : List α) : (rowsChainMajor C N K flat).length = C * N := by
   unfold rowsChainMajor
